@@ -97,12 +97,12 @@ CHECKS = {
    tech='Rocq/Coq proof (loop invariant + translated-cycle theorem) + model/implementation correspondence + extracted-spec oracle'),
  'C15': dict(cat='proof', sec='DESIGN.md §6 C15',
    text='Every decider loop of the Gallina models is for_upto(limit, body) with a limit-free body; the generic theorem C15_for_upto_mono '
-        '(an answer produced within n iterations is produced unchanged for every m >= n) gives C15_quick_mono, C15_rec_mono and C15_bw_mono '
-        '(same Refuted step number), with the CPS/segment instances added as their models land. That the REAL loop bodies do not read the limit is what '
-        'the tie checks: the implementation is run at pairs of limits l1 < l2 and the relation "equal or the smaller answered limit-reached" is '
+        '(an answer produced within n iterations is produced unchanged for every m >= n) gives C15_quick_mono, C15_rec_mono, C15_bw_mono '
+        '(same Refuted step number), C15_seg_mono and C15_cps_mono (a closed-set proof found below radius r is found below every larger radius). That the REAL loop bodies do not read the limit is what '
+        'the tie checks: the implementation is run at pairs of limits l1 < l2 (11 decider families; random tables, named machines and leaves of the real tree generator, where the per-window CPS answers '
+        'are not monotone; radii up to 12) and the relation "equal or the smaller answered limit-reached" is '
         'checked directly on its answers, and the same cases go through the extracted models.',
-   note=COMMON_NOTE + 'Theorems closed under the global context. Families currently covered: backward reasoner (3 goals), quick_term_or_rec, run_quick_machine; '
-        'cps/segment families are included automatically once their harness commands exist.',
+   note=COMMON_NOTE + 'Theorems closed under the global context. Families covered: backward reasoner (3 goals), quick_term_or_rec, run_quick_machine, cps (3 goals), segment wrappers (3 goals).',
    tech='Rocq/Coq proof (generic loop monotonicity) + paired-limit check on the implementation + model correspondence'),
  'C08': dict(cat='proof', sec='DESIGN.md §6 C08, §12',
    text='Coq theorems over the Gallina model of macros.rs (block logic), against the absolute-tape machine: C08_sim_body_sound / run_simulator soundness (one simulator iteration = n >= 1 base steps '
@@ -165,7 +165,7 @@ CHECKS = {
    text='Coq theorems over the Gallina model of tape.rs: canonical form is an invariant of Tape::step for every direction/colour/sweep flag '
         'and hence every history (induction), canonical tapes are unique representations of their cells, and marks/blank/at_edge/blocks/'
         'counts/signature equal the run-length reading of the unrolled cells. Tie: bbh (the real tape.rs, rebuilt from the working tree) '
-        'vs the extracted model on exhaustive and random step sequences, every observer compared after every step.',
+        'vs the extracted model on exhaustive and random step sequences, every observer compared after every step; long-block tapes (unroll() printed as length + hash and checked against the expansion of the blocks), equality/Hash on pairs of tapes incl. same cells with the head shifted, sig_compatible against foreign signatures; an independent Python oracle reads canonical form and every observer off the records of the implementation.',
    note=COMMON_NOTE + 'Theorems closed under the global context (no axioms). u64 overflow of block counts is outside the model.',
    tech='Rocq/Coq proof (invariant by induction over step histories) + model/implementation correspondence'),
  'C16': dict(cat='other', sec='DESIGN.md §6 C16, §5 F3, §12',
